@@ -14,8 +14,8 @@ import vlib
 from checks import readers_common as rc
 
 THEOREMS = ["C06_byte_reader", "C06_sample_reader", "C06_channel_reader", "C06_byte_invariant",
-            "C06_sample_invariant", "C06_channel_invariant", "C06_nonvacuous_samples", "C06_nonvacuous_bytes",
-            "C06_nonvacuous_channels", "C06_orig_end_uses_sample_count", "C06_orig_channel_seek_stale"]
+            "C06_sample_invariant", "C06_channel_invariant", "C06_sample_seek_beyond_end", "C06_channel_seek_beyond_end", "C06_nonvacuous_samples", "C06_nonvacuous_bytes",
+            "C06_nonvacuous_channels", "C06_orig_end_uses_sample_count", "C06_orig_channel_seek_stale", "C06_usize32_far_seek_panics"]
 
 
 def run(chk):
